@@ -31,7 +31,7 @@ def gen(tier, rnd):
         L.append(('S ' if rnd.random() < 0.5 else 'T ') + ' '.join(hx(s) for s in ss))
     # text -> options: paths from a grammar of segment spellings
     sp = [b'a', b'', b'.', b'..', b'%2e', b'%2E', b'%2e%2e', b'.%2e', b'%2E.', b'...', b'.a', b'a.', b'%41', b'a%2Fb', b'a%25b',
-          b'%zz', b'%4', b'%', b'%%2e', b'a b', b'\xc3\xa9', b'a%', b'%2', b'%2e%2', b'b%2e', b'%00', b'%ff', b'%FF', b'&', b'=']
+          b'%2541', b'%252e', b'%252E%252e', b'a%252Fb', b'%zz', b'%4', b'%', b'%%2e', b'a b', b'\xc3\xa9', b'a%', b'%2', b'%2e%2', b'b%2e', b'%00', b'%ff', b'%FF', b'&', b'=']
     for a in sp:
         L.append('P ' + hx(a))
         L.append('Q ' + hx(a))
